@@ -6,8 +6,8 @@ RULE = ("One TLC state per row of the reference table spec/ref/dist.ndjson (77 (
         "rationals (NaN / inf regimes of T and Pareto), Support, and for the finite-support laws the exact mass function with "
         "sum = 1, mean = first moment, var = second central moment proved by exact summation; P2: the harness compares mean() "
         "and var() with the closed forms, every evaluation point (quantile-spread inside the support, on its end points, "
-        "outside on both sides incl. negative and too-large counts, far tails; 1194 points) with the table value (relative 1e-9, "
-        "measured worst 2.5e-12), exactly 0 and no panic outside the support, exact rational masses, ln_pdf = ln(pdf), Normal "
+        "outside on both sides incl. negative and too-large counts, far tails; ~1250 points) with the table value (relative 1e-9, "
+        "measured worst 2.5e-12), closed end points of the documented support judged like interior points, the same density / mean / variance on objects moved to the row's parameters by update and by the setters from every other row of the kind, exactly 0 and no panic outside the support, exact rational masses, ln_pdf = ln(pdf), Normal "
         "cdf within 1.5e-7; total mass and the first two moments of the implementation's OWN density/mass function by "
         "summation / graded Gauss-Legendre quadrature against its mean()/var() (bounded or exponential-tail cases; T and "
         "Pareto with dof/alpha > 4 at 1e-5); MVN: pdf(mu) = (2 pi)^(-d/2)/|det L|, pdf(x)/pdf(mu) = exp(-q/2), ln_pdf, mean, "
